@@ -373,6 +373,16 @@ def run(ck):
             shapes.append(('?', '?'))
     ck.ob('PROV-maxwarn', cli.loc(mw), sorted(shapes) == sorted([('None', 'int'), ('str', 'None'), ('str', 'int')]),
           'maxwarn returns (None, int), (type, None) or (type, int): {}'.format(shapes), key='PROV-maxwarn|shapes')
+    # the type name is passed on exactly as typed (type matching is case-sensitive)
+    vparam = mw.args.args[0].arg
+    rebound = [n for n in walk_local(mw) if isinstance(n, ast.Name) and n.id == vparam and isinstance(n.ctx, ast.Store)]
+    types = []
+    for st, cond, env in rets:
+        v = st.value
+        if isinstance(v, ast.Tuple) and len(v.elts) == 2 and u(v.elts[0]) != 'None':
+            types.append(u(flow.subst(v.elts[0], env)))
+    ok = not rebound and all(t in (vparam, "{}.split(':')[0]".format(vparam)) for t in types) and len(types) == 2
+    ck.ob('PROV-maxwarn', cli.loc(mw), ok, 'the warning type is handed on exactly as written on the command line ({}), no normalisation'.format(types), key='PROV-maxwarn|raw-type')
     ends = [s for s in mw.body if isinstance(s, ast.Raise)]
     ck.ob('PROV-maxwarn', cli.loc(mw), len(ends) == 1 and mw.body[-1] is ends[0], 'anything else is an argparse error', key='PROV-maxwarn|raise')
     ck.assume('exact equality with the stated formula (largest limit, blanket consumption order) is not decided; '
